@@ -5,7 +5,9 @@ and records the outcome in seeded/<id>/meta.json (target_on_repo).
 
   tools/seedverify.py [seed-id ...]
 
-Nothing else may use /repo while this runs. /repo must be clean.
+Nothing else may use /repo while this runs. /repo must be clean. VERIF_SEED
+(default 1) is passed on to the checks; a value other than 1 is recorded under
+target_on_repo_seed<N>.
 """
 import glob, json, os, subprocess, sys, time
 
@@ -40,7 +42,8 @@ def main():
             sh(["git", "-C", "/repo", "checkout", "--", "."])
             sh(["git", "-C", "/repo", "clean", "-fdq"])
         line = next((l for l in r.stdout.splitlines() if "violated" in l), "")
-        m["target_on_repo"] = {"rc": r.returncode, "wall_s": round(time.time() - t0, 1), "repo_head": head, "verif_head": vhead, "first_message": line.strip()[:300]}
+        vs = os.environ.get("VERIF_SEED", "1")
+        m["target_on_repo" if vs == "1" else "target_on_repo_seed" + vs] = {"rc": r.returncode, "wall_s": round(time.time() - t0, 1), "repo_head": head, "verif_head": vhead, "first_message": line.strip()[:300]}
         json.dump(m, open(os.path.join(d, "meta.json"), "w"), indent=1)
         print(s, prop, "rc=%d" % r.returncode, "CAUGHT" if r.returncode == 1 else "MISSED/INCONCLUSIVE", flush=True)
         if r.returncode != 1:
